@@ -10,6 +10,7 @@ static V3 operator-(V3 a, V3 b) { return {a.x - b.x, a.y - b.y, a.z - b.z}; }
 static V3 operator*(V3 a, long double s) { return {a.x * s, a.y * s, a.z * s}; }
 static V3 cross(V3 a, V3 b) { return {a.y * b.z - a.z * b.y, a.z * b.x - a.x * b.z, a.x * b.y - a.y * b.x}; }
 static long double norm(V3 a) { return sqrtl(a.x * a.x + a.y * a.y + a.z * a.z); }
+static long double dot(V3 a, V3 b) { return a.x * b.x + a.y * b.y + a.z * b.z; }
 static V3 tov(const vec3& v) { return {v.dx(), v.dy(), v.dz()}; }
 
 enum Term { PRESSURE_POS = 0, PRESSURE_NEG, PRESSURE_CAPPED, TENSION_UNIFORM, TENSION_PER_TYPE, ELASTICITY, TENSION_AND_ELASTICITY, BENDING_UNIFORM, BENDING_PER_TYPE, ANGLES, ALL_TOGETHER, NTERMS };
@@ -167,12 +168,12 @@ static std::vector<sc::Mesh> mesh_family(bool th, long& from_bfs) {
 // A living cell: forces are evaluated by cell::apply_internal_forces (what the solver calls every iteration) after the nodes have moved and the mesh has been split / collapsed /
 // compacted since the previous evaluation.  Every sequence over the alphabet below up to the stated depth that ends in an evaluation is run on a fresh real cell; the resulting
 // force field is compared with p*dV/dx - sum_f gamma_eff(f)*dA_f/dx computed from the CURRENT triangle list and node positions only.
-enum HOp { H_FORCES = 0, H_SCALE, H_PULL, H_SHRINK, H_SPLIT, H_MERGE, H_REBASE, N_HOPS };
-static const char* hop_name[] = {"apply_internal_forces", "stretch(1.15,1,0.9)", "pull_one_node", "shrink(0.85)", "split_longest_edge", "merge_shortest_edge", "rebase"};
+enum HOp { H_FORCES = 0, H_SCALE, H_PULL, H_SHRINK, H_SPLIT, H_MERGE, H_REBASE, H_FAR, H_MERGE0, N_HOPS };
+static const char* hop_name[] = {"apply_internal_forces", "stretch(1.15,1,0.9)", "pull_one_node", "shrink(0.85)", "split_longest_edge", "merge_shortest_edge", "rebase", "translate_by_half_a_million_sizes", "merge_an_edge_of_node_slot_0"};
 static cell_type_param_ptr history_type(int pset) {
     auto ty = type_for(pset == 0 ? TENSION_AND_ELASTICITY : ALL_TOGETHER); ty->bulk_modulus_ = 2.5; ty->max_pressure_ = 1e30; return ty;
 }
-struct HistStat { long evaluations = 0, with_free_face_slots = 0, with_live_face_beyond_live_count = 0, after_displacement = 0, dead = 0; };
+struct HistStat { long far_with_slot0_free = 0, evaluations = 0, with_free_face_slots = 0, with_live_face_beyond_live_count = 0, after_displacement = 0, dead = 0; };
 static std::string run_history(const sc::Mesh& seed, const std::vector<int>& h, int pset, HistStat* st = nullptr) {
     char buf[500]; auto ty = history_type(pset); cell_ptr c = sc::make_cell(seed, 0, ty, true); for (unsigned i = 0; i < c->face_lst_.size(); i++) c->face_lst_[i].type_id_ = i % 3;
     c->target_volume_ = 1.1 * c->compute_volume(); local_mesh_refiner lmr(1e-3, 1e3, true); std::string err; bool moved = false;
@@ -182,8 +183,9 @@ static std::string run_history(const sc::Mesh& seed, const std::vector<int>& h, 
             case H_SCALE: case H_SHRINK: { V3 o = live_centroid(); double sx = op == H_SCALE ? 1.15 : 0.85, sy = op == H_SCALE ? 1.0 : 0.85, sz = op == H_SCALE ? 0.9 : 0.85;
                 for (node& nd : c->node_lst_) if (nd.is_used_) nd.pos_ = vec3((double)o.x + sx * (nd.pos_.dx() - (double)o.x), (double)o.y + sy * (nd.pos_.dy() - (double)o.y), (double)o.z + sz * (nd.pos_.dz() - (double)o.z)); moved = true; break; }
             case H_PULL: { V3 o = live_centroid(); node* far = nullptr; for (node& nd : c->node_lst_) if (nd.is_used_ && (!far || nd.pos_.dx() > far->pos_.dx())) far = &nd; far->pos_ = vec3(far->pos_.dx() + 0.3 * (far->pos_.dx() - (double)o.x), far->pos_.dy() + 0.1, far->pos_.dz()); moved = true; break; }
-            case H_SPLIT: case H_MERGE: { std::optional<edge> pick; double best = op == H_SPLIT ? -1 : 1e300;
-                for (const edge& e : c->get_edge_set()) { double l2 = (c->node_lst_[e.n1()].pos_ - c->node_lst_[e.n2()].pos_).squared_norm(); if (op == H_SPLIT ? l2 > best : l2 < best) { if (op == H_MERGE) { edge ec = e; bool can = false; try { can = lmr.can_be_merged(ec, c); } catch (...) {} if (!can) continue; } best = l2; pick = e; } }
+            case H_FAR: { for (node& nd : c->node_lst_) if (nd.is_used_) nd.pos_ = vec3(nd.pos_.dx() + 393216.0, nd.pos_.dy() - 262144.0, nd.pos_.dz() + 524288.0); moved = true; break; }
+            case H_SPLIT: case H_MERGE: case H_MERGE0: { std::optional<edge> pick; double best = op == H_SPLIT ? -1 : 1e300;
+                for (const edge& e : c->get_edge_set()) { if (op == H_MERGE0 && !(c->node_lst_[0].is_used_ && (e.n1() == 0 || e.n2() == 0))) continue; double l2 = (c->node_lst_[e.n1()].pos_ - c->node_lst_[e.n2()].pos_).squared_norm(); if (op == H_SPLIT ? l2 > best : l2 < best) { if (op != H_SPLIT) { edge ec = e; bool can = false; try { can = lmr.can_be_merged(ec, c); } catch (...) {} if (!can) continue; } best = l2; pick = e; } }
                 if (!pick) { sc::release(c); if (st) st->dead++; return "dead"; } edge e = *pick; edge_set es = c->get_edge_set();
                 try { if (op == H_SPLIT) lmr.split_edge(e, c, es); else lmr.merge_edge(e, c, es); } catch (...) { sc::release(c); if (st) st->dead++; return "dead"; }
                 sc::OracleOpts oo; oo.check_cached_geometry = false; oo.flat_is_error = false; if (!sc::oracle_mesh(*c, oo).empty()) { sc::release(c); if (st) st->dead++; return "dead"; }   // an invalid mesh is C01's business
@@ -200,6 +202,9 @@ static std::string run_history(const sc::Mesh& seed, const std::vector<int>& h, 
                 V3 net, torque; long double sumabs = 0; for (unsigned i = 0; i < N; i++) if (c->node_lst_[i].is_used_) { V3 f = tov(c->node_lst_[i].force_); net = net + f; torque = torque + cross(tov(c->node_lst_[i].pos_) - ctr, f); sumabs += norm(f); if (!std::isfinite((double)norm(f))) err = "non-finite-force"; }
                 if (err.empty() && sumabs > 0 && norm(net) > 1e-9L * sumabs) { snprintf(buf, sizeof buf, "net-force-not-zero: |sum F| = %.3Lg of sum|F| = %.3Lg", norm(net), sumabs); err = buf; }
                 if (err.empty() && sumabs > 0 && norm(torque) > 1e-9L * sumabs * diam) { snprintf(buf, sizeof buf, "net-torque-not-zero: |sum r x F| = %.3Lg of sum|F|*diam = %.3Lg", norm(torque), sumabs * diam); err = buf; }
+                { long double V = 0; for (const face& f : c->face_lst_) if (f.is_used_) { V3 q0 = tov(c->node_lst_[f.n1_id_].pos_) - ctr, q1 = tov(c->node_lst_[f.n2_id_].pos_) - ctr, q2 = tov(c->node_lst_[f.n3_id_].pos_) - ctr; V += dot(q0, cross(q1, q2)) / 6; }
+                  if (err.empty() && fabsl((long double)c->volume_ - V) > 1e-9L * diam * diam * diam) { snprintf(buf, sizeof buf, "volume-behind-the-pressure-is-not-the-volume-of-the-current-mesh: the cell holds %.12g, the triangles enclose %.12Lg (node slot 0 %s, centre (%.6Lg,%.6Lg,%.6Lg))", c->volume_, V, c->node_lst_[0].is_used_ ? "live" : "free", ctr.x, ctr.y, ctr.z); err = buf; }
+                  if (st && !c->node_lst_[0].is_used_ && fabsl(ctr.x) > 1e5L) st->far_with_slot0_free++; }
                 if (err.empty() && pset == 0) {
                     const long double p = c->pressure_, A0 = c->target_area_, ka = ty->area_elasticity_modulus_, mem = (ka / A0) * (A / A0 - 1.0L); std::vector<V3> ref(N); long double scale = fabsl(p) * diam * diam;
                     for (const face& f : c->face_lst_) { if (!f.is_used_) continue; unsigned id[3] = {f.n1_id_, f.n2_id_, f.n3_id_}; V3 q[3]; for (int k = 0; k < 3; k++) q[k] = tov(c->node_lst_[id[k]].pos_) - ctr;
@@ -251,7 +256,7 @@ static void explore(Result& R) {
             for (int op = 0; op < N_HOPS; op++) { if (!h.empty() && h.back() == H_REBASE && op == H_REBASE) continue; h.push_back(op); rec(); h.pop_back(); } };
           rec(); }
       if (R.out_of_time(0.95)) R.cap("deadline in the history block");
-      R["history_evaluations"] = st.evaluations; R["history_evaluations_with_free_face_slots"] = st.with_free_face_slots; R["history_evaluations_with_a_live_face_stored_beyond_the_live_count"] = st.with_live_face_beyond_live_count; R["history_evaluations_after_a_displacement"] = st.after_displacement; R["histories_ended_by_refusal_or_degenerate_mesh"] = st.dead;
+      R["history_evaluations_far_from_the_origin_with_node_slot_0_free"] = st.far_with_slot0_free; R["history_evaluations"] = st.evaluations; R["history_evaluations_with_free_face_slots"] = st.with_free_face_slots; R["history_evaluations_with_a_live_face_stored_beyond_the_live_count"] = st.with_live_face_beyond_live_count; R["history_evaluations_after_a_displacement"] = st.after_displacement; R["histories_ended_by_refusal_or_degenerate_mesh"] = st.dead;
       if (R.violations.empty() && (!st.with_live_face_beyond_live_count || !st.after_displacement)) R.internal_error = "history block vacuous"; }
     R["evaluations"] = evals; R["transitions"] = evals; R["states"] = cases; R["distinct_nontrivial"] = (long)wn[2] + R["history_evaluations_after_a_displacement"]; R["traces_validated_against_impl"] = evals; R["meshes"] = fam.size(); R["meshes_from_remeshing_bfs"] = from_bfs; R["bfs_meshes_skipped_for_zero_area_triangles"] = skipped_degenerate; R["equivariance_checks_skipped_hinge_exactly_at_135_degree_cutoff"] = g_skipped_at_threshold;
     R.reals["worst_net_force_ratio"] = wn[0]; R["cases_with_identically_zero_force"] = (long)wn[1];
